@@ -34,6 +34,145 @@ def replay(prop, scenario, params):
 
 
 def execute(prop, scenario, params, streams=None):
+    if prop == "C05":
+        return execute_c05(scenario, params, streams)
+    return execute_generic(prop, scenario, params, streams)
+
+
+def execute_c05(scenario, params, streams=None):
+    """C05: success-path validator after every session, plus fault
+    enumeration: for every session with N patch callbacks, N more executions
+    with an exception injected into callback k (fresh build each time)."""
+    from . import build, driver, gen, observe, oracles, validate
+
+    stats = collections.Counter()
+    params = dict(params)
+    params["_isa"] = scenario["module"]["isa"]
+    params["_fmt"] = scenario["module"]["fmt"]
+    sigma = scenario["sigma"]
+    meta = {"sigma": core.digest(sigma), "interleavings": []}
+
+    def play(upto, fault_session=None, plan=None, generate=False):
+        """Run sessions [0, upto); returns list of Session objects.  In the
+        fault session only the failure-path validator is applied."""
+        core.reseed(sigma["uuid_seed"], sigma["salt"])
+        world, model = build.build(scenario["module"])
+        obs = observe.Obs(world, model)
+        oracles.align_model(world, model, obs, "C05")
+        if not gen.module_shape_ok(model):
+            raise core.Rejected("module violates the generator's shape preconditions")
+        out = []
+        for si in range(upto):
+            gen_cb = None
+            if si < len(scenario["sessions"]):
+                sdesc = scenario["sessions"][si]
+            else:
+                sdesc = None
+                hist = streams.get(f"gen.session.{si}")
+
+                def gen_cb(m, hist=hist, si=si):
+                    sd = gen.gen_session(hist, m, params, si)
+                    fr = streams.get(f"faults.{si}")
+                    if sd["ops"] and fr.random() < params.get("sampled_fault_p", 0.25):
+                        kind = fr.choice(["none", "empty", "syntax", "undef", "redef"])
+                        sd["faults"] = {"callback": {str(fr.randint(1, 4)): kind}}
+                    return sd
+
+            if si == fault_session:
+                sdesc = dict(sdesc)
+                sdesc["faults"] = plan
+            sess = driver.run_session(
+                world, model, sdesc, "C05", si, gen_cb=gen_cb, check_shape=lambda m, sd: gen.shape_ok(m, sd, params) and gen.ops_allowed(m, sd)
+            )
+            if si >= len(scenario["sessions"]):
+                scenario["sessions"].append(sess.desc)
+            out.append(sess)
+            for k, v in sess.fired.items():
+                stats["fault." + k] += v
+            failed = sess.error is not None
+            if failed:
+                expected = isinstance(sess.error, driver.InjectedFault) or _assembler_refusal(sess)
+                if not expected:
+                    raise core.Violation(
+                        "C05",
+                        "aborted",
+                        {"exception": type(sess.error).__name__, "message": str(sess.error)[:300], "session": si},
+                        {"exc": type(sess.error).__name__, "msg": _normalize(str(sess.error))},
+                    )
+                stats["failed_sessions"] += 1
+                validate.validate(world, sess.pre_blocks, failure=True, cache_cfg=sess.cache_cfg, orig_cfg=sess.orig_cfg, pre_symbol_refs=sess.pre_symbol_refs)
+                # one more (empty) session on what was left behind
+                import gtirb_functions
+                import gtirb_rewriting
+
+                m = world.module
+                try:
+                    funcs = gtirb_functions.Function.build_functions(m) if "functionEntries" in m.aux_data and "functionBlocks" in m.aux_data else []
+                    pre = {b.uuid for b in m.byte_blocks}
+                    gtirb_rewriting.RewritingContext(m, funcs).apply()
+                    stats["followup_sessions"] += 1
+                except Exception:
+                    stats["probe.followup_session_raised"] += 1
+                else:
+                    # (block adjacency at deletion time is not reconstructible
+                    # after the failed session left the intervals split)
+                    validate.validate(world, pre, failure=False, reordered=True)
+                return out, world, model, True
+            driver.apply_to_model(sess)
+            model.end_session()
+            obs = observe.Obs(world, model)
+            oracles.align_model(world, model, obs, "C05")
+            validate.validate(world, sess.pre_blocks, failure=False, reordered=obs.reordered)
+        return out, world, model, False
+
+    try:
+        nsess = scenario.get("plan", {}).get("nsessions", len(scenario["sessions"])) if streams else len(scenario["sessions"])
+        sessions, world, model, failed = play(nsess)
+        stats["sessions"] += len(sessions)
+        for sess in sessions:
+            stats["ops"] += len(sess.desc["ops"])
+            stats["patch_callbacks"] += sess.callback_count
+        scenario["plan"] = {"nsessions": len(scenario["sessions"])}
+        stats["executions"] += 1
+        # fault enumeration
+        for si, sess in enumerate(sessions):
+            if sess.desc.get("faults"):
+                continue
+            for k in range(1, min(sess.callback_count, 64) + 1):
+                plan = {"callback": {str(k): "raise"}}
+                outs, w2, m2, f2 = play(si + 1, fault_session=si, plan=plan)
+                stats["executions"] += 1
+                stats["enumerated_faults"] += 1
+                if not f2:
+                    raise core.HarnessError(f"injected fault at callback {k} of session {si} did not fire")
+        verdict = core.result_ok(dict(stats))
+    except core.Violation as v:
+        verdict = core.result_violation(v, dict(stats))
+    except core.Rejected as e:
+        verdict = {"verdict": core.Verdict.REJECTED, "why": str(e), "stats": dict(stats)}
+    except core.Desync as e:
+        verdict = {"verdict": core.Verdict.DESYNC, "why": str(e)[:500], "stats": dict(stats)}
+    meta["sdig"] = core.digest([scenario["module"], scenario["sessions"]])
+    meta["nontrivial"] = stats["patch_callbacks"] > 0
+    verdict["meta"] = meta
+    return verdict
+
+
+def _assembler_refusal(sess):
+    """An assembler error provoked by an injected bad patch text."""
+    from gtirb_rewriting.assembler import AsmSyntaxError, MultipleDefinitionsError, UndefSymbolError
+
+    kinds = set((sess.fault_plan.get("callback") or {}).values())
+    if isinstance(sess.error, AsmSyntaxError) and "syntax" in kinds:
+        return True
+    if isinstance(sess.error, UndefSymbolError) and "undef" in kinds:
+        return True
+    if isinstance(sess.error, MultipleDefinitionsError) and "redef" in kinds:
+        return True
+    return False
+
+
+def execute_generic(prop, scenario, params, streams=None):
     """Pure function of (scenario, sigma, code).  With ``streams`` the
     sessions not yet present in the scenario are generated lazily (they
     depend on the block structure the previous session produced) and
@@ -44,6 +183,7 @@ def execute(prop, scenario, params, streams=None):
     core.reseed(sigma["uuid_seed"], sigma["salt"])
     params = dict(params)
     params["_isa"] = scenario["module"]["isa"]
+    params["_fmt"] = scenario["module"]["fmt"]
     stats = collections.Counter()
     interleavings = []
     world, model = build.build(scenario["module"])
